@@ -215,6 +215,9 @@ def run_word(cfg, word, seed, do_probe, stats):
     persistent = (TreeImputer(pm, storage_object=storage, direct_predict_numeric=False, use_storage=True), pm)
     for bi, (concept, m) in enumerate(word):
         for x in gen_block(concept, m, seed, t):
+            if cfg.get('rep') == 'bigint':
+                # a numerical feature holding integers beyond 2**53 (ids, nanosecond timestamps): not representable as floats
+                x = dict(x, n1=1_700_000_000_000_000_000 + int(round(x['n1'] * 10 ** 6)) * 1001)
             if t and t % 4 == 0:
                 # the long-lived imputer is used before every 4th update (default answers of its draws)
                 sub = [NAMES[(t // 4) % 3], NAMES[(t // 4 + 1) % 3]] if (t // 4) % 2 else [NAMES[(t // 4) % 3]]
@@ -273,6 +276,9 @@ def plan(tier, seed):
         chunk = 8
         for i in range(0, len(words), chunk):
             tasks.append((cfg, words[i:i + chunk], seed, ci < 2 and (i // chunk) % 3 == 0))
+    single = [w for w in words if len(w) == 1]
+    tasks.append((dict(cfgs[0], rep='bigint'), single[:6], seed, True))
+    tasks.append((dict(cfgs[1], rep='bigint'), single[6:], seed, True))
     # drift sweep: every pair (and, in thorough, triple) of long blocks under many block seeds - restructuring of the
     # adaptive trees (branch replaced / pruned by the drift detector) is a rare event of the block generator
     long = [(c, 150) for c in CONCEPTS]
